@@ -1,0 +1,15 @@
+//go:build verif
+
+package generic
+
+// VerifYield, when set by a verification harness, is called at the named
+// points inside the critical section of a generic function call. The harness
+// uses it to hold a routine there while it lets other routines run. Unset (and
+// compiled out without the verif build tag) in normal builds.
+var VerifYield func(point string)
+
+func verifYield(point string) {
+	if VerifYield != nil {
+		VerifYield(point)
+	}
+}
